@@ -63,7 +63,8 @@ CANDIDATES = {
                "whatever the number of threads` does not hold"),
 }
 
-TSAN_ENV = {"TSAN_OPTIONS": "halt_on_error=0 second_deadlock_stack=1 report_signal_unsafe=0 history_size=4 exitcode=66"}
+TSAN_ENV = {"TSAN_OPTIONS": "halt_on_error=0 second_deadlock_stack=1 report_signal_unsafe=0 history_size=4 exitcode=66 suppressions=%s"
+            % os.path.join(vlib.ROOT, "harness", "tsan.supp")}
 
 
 def setup():
